@@ -6,8 +6,8 @@
    prints for a live `Counter` inside a bare `HWSystem` (wire ids = position in all_wires: the system clock wire, the
    ports present, then the internal wires in creation order, the carry-in wire of the inner Add last; combinational
    leaves in the order of Simulator.propagatables after topologicalSort; leaf functions = the REGENERATED Gen
-   definitions).  `counter_design_is_dump_*` below compare it by `reflexivity` with the text Dump printed for
-   width 4 / 1 in all four port configurations (pasted verbatim). *)
+   definitions).  Proofs/C09/NetlistDump.v compares it by `reflexivity` with the text Dump printed for live objects
+   (pasted verbatim; all four port configurations).  The same for TReg further down. *)
 From V Require Import Base.Bits Gen.WireOps Gen.Helpers Gen.Prims Gen.Seq Model.SimKernel Model.Trace Model.SeqBlocks Spec.C09.
 From V Require Import Proofs.C09.Leaves Proofs.C09.Run Proofs.C09.Counters.
 
@@ -219,7 +219,7 @@ Ltac ordered_tac :=
 
 Lemma counter_design_wellformed w wr wi hi hr :
   let D := counter_design w wr wi hi hr in
-  topo (combs D) /\ ordered (combs D) /\ single_driver (combs D) /\ registered_once D /\ single_writer D /\ outs_nodup D.
+  Spec.C05.topo (combs D) /\ ordered (combs D) /\ single_driver (combs D) /\ registered_once D /\ single_writer D /\ outs_nodup D.
 Proof.
   cbv zeta. split; [apply topo_b_spec; destruct hi, hr; vm_compute; reflexivity|].
   split; [destruct hi, hr; ordered_tac|].
@@ -240,7 +240,7 @@ Qed.
 
 Lemma treg_design_wellformed wq wt we wr he hr :
   let D := treg_design wq wt we wr he hr in
-  topo (combs D) /\ ordered (combs D) /\ single_driver (combs D) /\ registered_once D /\ single_writer D /\ outs_nodup D.
+  Spec.C05.topo (combs D) /\ ordered (combs D) /\ single_driver (combs D) /\ registered_once D /\ single_writer D /\ outs_nodup D.
 Proof.
   cbv zeta. split; [apply topo_b_spec; destruct he, hr; vm_compute; reflexivity|].
   split; [destruct he, hr; ordered_tac|].
